@@ -35,7 +35,8 @@ DIMS = {
     'path': ['old', 'new'],
     'prange': [[1e6, 1e-1], [1e5, 1e1], [1e7, 1e-4]],
     'planet': [[1.0, 1.0], [0.5, 0.1], [1.7, 3.0]],
-    'rstar': [1.0, 0.3],
+    # (0.05 solar radii: a white dwarf - a giant planet is larger than its star, the documented ratio exceeds one)
+    'rstar': [1.0, 0.3, 0.05],
     # the last one: the deepest layers are hotter than the collision-induced-absorption tables reach (no CIA opacity
     # there, by the documented rule for CIA objects), the layers above are inside
     'T': [['iso', 1000.0], ['dec'], ['inc'], ['nonmono'], ['outside'], ['array', [800.0, 2000.0, 3700.0, 4200.0]]],
@@ -360,7 +361,9 @@ HIST_ALPHABET = [['T', 800.0], ['T', 1800.0], ['planet_radius', 0.8], ['planet_r
                  ['__multi__', [['H2O', 0.0], ['CH4', 0.0], ['Na', 1.0]]]]
 # requested spectral windows of equal length at both ends of the native grid, and the full grid again
 HIST_ALPHABET += [['__window__', [1000.0, 2000.0]], ['__window__', [3000.0, 4000.0]], ['__window__', None]]
-HIST_REDUCED = [['T', 800.0], ['T', 1800.0], ['planet_mass', 0.5], ['clouds_pressure', 1e2], ['clouds_pressure', 3e4],
+HIST_ALPHABET += [['H2O', 1.5]]      # rejected (above one): the history continues from the rejected state
+# ['H2O', 1.5]: a mixing ratio above one - the model is rejected, and the history goes on from there
+HIST_REDUCED = [['H2O', 1.5], ['T', 800.0], ['T', 1800.0], ['planet_mass', 0.5], ['clouds_pressure', 1e2], ['clouds_pressure', 3e4],
                 ['H2O', 1e-3], ['atm_max_pressure', 1e5]]
 
 
